@@ -188,6 +188,32 @@ def run_names(case, ctx, mon):
     mon.nontrivial(True)
 
 
+def run_rowpair(case, ctx, mon):
+    """A table in which one row holds a larger counter than row 0 (two keys that share a counter only in that row, counted in
+    different sketches, then merged) must survive save/load bit for bit, for every loader."""
+    cfg = case["cfg"]
+    kind = cfg["kind"]
+    pr = state.NativeProber({k: cfg[k] for k in ("kind", "width", "depth")})
+    pair = state.find_row_pair(pr, cfg["depth"], case["row"], np.random.default_rng(case["seed"]), tries=120)
+    if pair is None:
+        mon.count("rowpair_not_constructible")
+        return
+    a, b = state.make(cfg), state.make(cfg)
+    a.add(pair[0], case["values"][0])
+    b.add(pair[1], case["values"][1])
+    a.merge(b)
+    for shm in (False, True):
+        for via in (False, True):
+            c = mon.api(state.save_load, a, kind, shm, via)
+            d = state.snap_diff(state.snapshot(a, kind), state.snapshot(c, kind))
+            mon.check(not d, "loaded-state==saved-state", differs_in=d, where=f"row-pair table shm={shm} via_module={via}", cfg=cfg, values=case["values"])
+            for k in pair:
+                mon.check(c.query(k) == a.query(k), "query-equal", key=hx(k), a=float(a.query(k)), b=float(c.query(k)), where="row-pair table", cfg=cfg)
+            del c
+    mon.count("rowpair_cases")
+    mon.nontrivial(True)
+
+
 def run_dispatch(case, ctx, mon):
     """Module-level load() returns the class that wrote the file; class loaders reject other counter types."""
     s = sk()
@@ -223,6 +249,12 @@ def gen_cases(ctx):
     rng = ctx.rng("cases")
     yield {"type": "dispatch", "width": 3, "depth": 2}
     yield {"type": "dispatch", "width": 1, "depth": 1}
+    for r in range(1, 4):
+        for vals in ((40000, 40000), (65535, 1), (200, 100), (2**24 - 1, 2)):
+            yield {"type": "rowpair", "cfg": {"kind": "linear", "width": pick(rng, [3, 5, 8]), "depth": max(r + 1, 3)}, "row": r, "values": list(vals),
+                   "seed": int(rng.integers(0, 2**31))}
+        yield {"type": "rowpair", "cfg": {"kind": "log16", "width": 5, "depth": max(r + 1, 3), "max_count": 2**32 - 1, "num_reserved": 1023}, "row": r,
+               "values": [200, 100], "seed": int(rng.integers(0, 2**31))}
     for kind in state.ALL_KINDS:
         cfg = {"kind": kind, "width": 5, "depth": 2, "max_key_len": 6, "p": 8, "seed": 3}
         yield {"type": "names", "kind": kind, "cfg": cfg, "names": ["daily.2024-01-01", "daily.2024-01-02", "ckpt.0", "ckpt.1", "ckpt.10.npz", "plain", "v1.2.npz"]}
@@ -238,7 +270,9 @@ def gen_cases(ctx):
 
 
 def run_case(case, ctx, mon):
-    if case["type"] == "names":
+    if case["type"] == "rowpair":
+        run_rowpair(case, ctx, mon)
+    elif case["type"] == "names":
         run_names(case, ctx, mon)
     elif case["type"] == "dispatch":
         run_dispatch(case, ctx, mon)
